@@ -64,16 +64,16 @@ def r18_1(repo: Repo) -> RuleResult:
                         return True
                     return (x in defs and norm(defs[x]) == y) or (y in defs and norm(defs[y]) == x)
 
+                from .common import rel_under
+
                 for t, lab in g.guards_of(nid):
                     test = g.nodes[t].ast
-                    if isinstance(test, ast.Compare) and len(test.ops) == 1:
-                        l, r, op = norm(test.left), norm(test.comparators[0]), test.ops[0]
-                        if same(l, a) and same(r, b):
-                            if (isinstance(op, (ast.Gt,)) and lab == "false") or (isinstance(op, (ast.LtE,)) and lab == "true"):
-                                ok = True
-                        if same(l, b) and same(r, a):
-                            if (isinstance(op, (ast.Lt,)) and lab == "false") or (isinstance(op, (ast.GtE,)) and lab == "true"):
-                                ok = True
+                    if not isinstance(test, ast.AST):
+                        continue
+                    # the fact that holds on this edge, whichever way round (and however negated) the test is written
+                    r_ = rel_under(test, lab)
+                    if r_ is not None and r_[0] == "le" and same(r_[1], a) and same(r_[2], b):
+                        ok = True  # a <= b, i.e. q = a / b <= 1
             if ok:
                 rr.ok(f, construct, "dominated by a comparison that excludes q > 1", call.lineno)
             else:
@@ -138,15 +138,52 @@ def r18_2(repo: Repo) -> RuleResult:
 
 
 def _zero_cases(f: Func) -> Set[Tuple[str, int, str]]:
-    """{(connective, number of `== 0` terms, returned constant)} for `if <norm tests>: return <const>`."""
-    out = set()
+    """What the function returns when both / exactly one of its two mass totals are zero, decided by *evaluating* its
+    top-level tests of the form `<total> == 0` (combined with and / or / not) for those cases - so an if / elif chain,
+    separate ifs and un-nested returns all read alike.  Result: {('both', 2, const), ('one', 1, const), ...}."""
+    totals: List[str] = []
     for n in walk_no_nested(f.node):
-        if isinstance(n, ast.If) and len(n.body) == 1 and isinstance(n.body[0], ast.Return) and isinstance(n.body[0].value, ast.Constant):
-            t = n.test
-            terms = t.values if isinstance(t, ast.BoolOp) else [t]
-            conn = "and" if isinstance(t, ast.BoolOp) and isinstance(t.op, ast.And) else ("or" if isinstance(t, ast.BoolOp) else "single")
-            if all(isinstance(x, ast.Compare) and isinstance(x.ops[0], ast.Eq) and norm(x.comparators[0]) in ("0", "0.0") for x in terms):
-                out.add((conn, len(terms), repr(float(n.body[0].value.value))))
+        if isinstance(n, ast.Compare) and len(n.ops) == 1 and isinstance(n.ops[0], (ast.Eq, ast.NotEq)) and norm(n.comparators[0]) in ("0", "0.0") \
+                and isinstance(n.left, ast.Name) and n.left.id not in totals:
+            totals.append(n.left.id)
+    if len(totals) != 2:
+        return set()
+
+    def truth(t: ast.AST, zero: Set[str]) -> Optional[bool]:
+        if isinstance(t, ast.UnaryOp) and isinstance(t.op, ast.Not):
+            v = truth(t.operand, zero)
+            return None if v is None else not v
+        if isinstance(t, ast.BoolOp):
+            vals = [truth(v, zero) for v in t.values]
+            if any(v is None for v in vals):
+                return None
+            return all(vals) if isinstance(t.op, ast.And) else any(vals)
+        if isinstance(t, ast.Compare) and len(t.ops) == 1 and isinstance(t.left, ast.Name) and t.left.id in totals and norm(t.comparators[0]) in ("0", "0.0"):
+            if isinstance(t.ops[0], ast.Eq):
+                return t.left.id in zero
+            if isinstance(t.ops[0], ast.NotEq):
+                return t.left.id not in zero
+        return None
+
+    def run(stmts, zero: Set[str]) -> Optional[str]:
+        for st in stmts:
+            if isinstance(st, ast.If):
+                v = truth(st.test, zero)
+                if v is None:
+                    continue  # a test about something else (e.g. the Bhattacharyya bound): not a zero-mass case
+                r = run(st.body if v else st.orelse, zero)
+                if r is not None:
+                    return r
+            elif isinstance(st, ast.Return):
+                return repr(float(st.value.value)) if isinstance(st.value, ast.Constant) and isinstance(st.value.value, (int, float)) else "<computed>"
+        return None
+
+    out = set()
+    a, b = totals
+    for label, n_zero, zero in (("both", 2, {a, b}), ("one", 1, {a}), ("one", 1, {b})):
+        r = run(f.node.body, zero)
+        if r is not None and r != "<computed>":
+            out.add((label, n_zero, r))
     return out
 
 
